@@ -50,8 +50,17 @@ def _proteins(case):
     """[(name, sequence)] in the case's base order (targets then mirrored decoys)."""
     out = []
     names = case.get("names") or [f"P{i}" for i in range(len(case["matrix"]))]
+    junk = case.get("junk")
+    most = max(sum(r) for r in case["matrix"])
     for i, row in enumerate(case["matrix"]):
         seq = "".join(TP[j] for j, b in enumerate(row) if b)
+        if junk == "pad" and seq:
+            # residues that yield no peptide inside the length bounds (an uncleavable stretch longer than max_length):
+            # the fewer peptides a protein has, the longer its sequence
+            seq = "G" * (51 + 7 * (most - sum(row))) + "K" + seq
+        elif isinstance(junk, list) and seq:
+            j = junk[i % len(junk)]
+            seq = (j + seq) if i % 2 else (seq + j)
         out.append((names[i], seq))
     if case.get("decoys") and not case.get("names"):  # mirrored decoys would collide with explicitly prefixed entries
         for i, row in enumerate(case["matrix"]):
@@ -144,7 +153,9 @@ def _validate(prots, missed, st_):
     contained = any(S[a] <= S[b] for a in S for b in S if a != b)
     multi = any(sum(1 for b in S if a != b and S[a] < S[b] and not any(S[b] < S[c] for c in S)) >= 2 for a in S)
     equal = any(S[a] == S[b] for a in S for b in S if a < b)
-    return contained, multi, equal
+    lens = dict(prots)
+    longer = any(S[a] < S[b] and len(lens[a]) > len(lens[b]) for a in S for b in S if a != b)
+    return contained, multi, equal, longer
 
 
 def check(case):
@@ -170,7 +181,7 @@ def check(case):
         vals = list(outs.values())
         require(all(v == vals[0] for v in vals), "hash-seed-dependent",
                 f"grouping differs between hash seeds {list(outs)}: {vals[0][:200]} vs {[v for v in vals if v != vals[0]][0][:200] if any(v != vals[0] for v in vals) else ''}")
-    contained, multi, equal = info
+    contained, multi, equal, _longer = info
     classes = []
     if contained:
         classes.append("subset")
@@ -184,6 +195,9 @@ def check(case):
         classes.append("prefixed-entries-sharing-target-peptides")
     if missed:
         classes.append("missed-cleavage")
+    if case.get("junk"):
+        classes.append("residues-without-peptides")
+        classes += ["subset-protein-longer-than-superset"] if info[3] else []
     return {"nontrivial": contained, "classes": classes, "counters": {"fasta_reads": 3}}
 
 
@@ -194,6 +208,8 @@ def enumerate_cases(tier):
             for bits in itertools.product((0, 1), repeat=np_ * nq):
                 m = [list(bits[i * nq:(i + 1) * nq]) for i in range(np_)]
                 yield {"matrix": m, "decoys": False, "missed": 0, "perm": [2, 0, 3, 1]}
+                if np_ >= 2:
+                    yield {"matrix": m, "decoys": False, "missed": 0, "perm": [2, 0, 3, 1], "junk": "pad"}
                 if np_ >= 2:
                     # the last entry carries the decoy prefix but shares the targets' peptide universe
                     yield {"matrix": m, "decoys": False, "missed": 0, "perm": [2, 0, 3, 1],
@@ -231,8 +247,12 @@ def _case(draw, tier):
                 names.append(f"P{i}")
         if len(set(names)) != len(names) or not any(not n.startswith(PREFIX) for n in names):
             names = None
+    # residues that produce no peptide of their own inside the length bounds: short fragments, an over-long uncleavable stretch
+    junk = draw(st.sampled_from([None, None, "pad", "list"]))
+    if junk == "list":
+        junk = draw(st.lists(st.sampled_from(["", "AAK", "AK", "SSSSK", "G" * 55 + "K", "G" * 70 + "K", "TTTTT"]), min_size=1, max_size=5))
     return {"matrix": rows, "decoys": draw(st.booleans()), "missed": draw(st.sampled_from([0, 0, 1])),
-            "perm": draw(st.lists(st.integers(0, 20), min_size=1, max_size=12)), "names": names}
+            "perm": draw(st.lists(st.integers(0, 20), min_size=1, max_size=12)), "names": names, "junk": junk}
 
 
 def strategy(tier):
